@@ -389,6 +389,193 @@ func results(in, out string) {
 	os.WriteFile(out, b, 0o644)
 }
 
+// ---------------------------------------------------------------- callbacks table (MC_AnkoCall, Shard = "callbacks")
+
+type CbCase struct {
+	C struct {
+		Gfix   int  `json:"gfix"`
+		Gvar   bool `json:"gvar"`
+		Gextra int  `json:"gextra"`
+		Sfix   int  `json:"sfix"`
+		Svar   bool `json:"svar"`
+		Gres   int  `json:"gres"`
+		Sret   int  `json:"sret"`
+	} `json:"c"`
+	Sees struct {
+		O  string `json:"o"`
+		Ps []struct {
+			K  string  `json:"k"`
+			Vs []int64 `json:"vs"`
+		} `json:"ps"`
+	} `json:"sees"`
+	Returns struct {
+		O  string  `json:"o"`
+		Rs []int64 `json:"rs"`
+	} `json:"returns"`
+}
+
+// elems renders a value the script function received as the list of int64 it holds ("val" -> one element)
+func cbElems(x interface{}) (kind string, vs []int64, ok bool) {
+	switch v := x.(type) {
+	case int64:
+		return "val", []int64{v}, true
+	case []int64:
+		return "slice", append([]int64{}, v...), true
+	case []interface{}:
+		out := []int64{}
+		for _, e := range v {
+			i, isInt := e.(int64)
+			if !isInt {
+				return "list", nil, false
+			}
+			out = append(out, i)
+		}
+		return "list", out, true
+	}
+	return fmt.Sprintf("%T", x), nil, false
+}
+
+func callbacks(in, out string) {
+	var sum Summary
+	add := func(m Mismatch) {
+		sum.NMismatch++
+		if len(sum.Mismatches) < 40 {
+			sum.Mismatches = append(sum.Mismatches, m)
+		}
+	}
+	i64 := reflect.TypeOf(int64(0))
+	err := tlcout.Each(in, func(raw []byte) error {
+		var c CbCase
+		if err := json.Unmarshal(raw, &c); err != nil {
+			return err
+		}
+		sum.Cases++
+		if !c.C.Gvar {
+			c.C.Gextra = 0
+		}
+		// the Go side: host(cb func(int64 x gfix [, ...int64]) (int64 x gres)) calls cb with 11, 12, .. [21, 22, ..] and returns what cb returned
+		var ins, outs []reflect.Type
+		for i := 0; i < c.C.Gfix; i++ {
+			ins = append(ins, i64)
+		}
+		if c.C.Gvar {
+			ins = append(ins, reflect.SliceOf(i64))
+		}
+		for i := 0; i < c.C.Gres; i++ {
+			outs = append(outs, i64)
+		}
+		cbT := reflect.FuncOf(ins, outs, c.C.Gvar)
+		called := 0
+		host := reflect.MakeFunc(reflect.FuncOf([]reflect.Type{cbT}, outs, false), func(a []reflect.Value) []reflect.Value {
+			var vals []reflect.Value
+			for i := 0; i < c.C.Gfix; i++ {
+				vals = append(vals, reflect.ValueOf(int64(11+i)))
+			}
+			for i := 0; i < c.C.Gextra; i++ {
+				vals = append(vals, reflect.ValueOf(int64(21+i)))
+			}
+			called++
+			return a[0].Call(vals)
+		})
+		// the script side
+		var params, names []string
+		for i := 0; i < c.C.Sfix; i++ {
+			params = append(params, fmt.Sprintf("p%d", i+1))
+			names = append(names, fmt.Sprintf("p%d", i+1))
+		}
+		if c.C.Svar {
+			params = append(params, "v...")
+			names = append(names, "v")
+		}
+		var rets []string
+		for i := 0; i < c.C.Sret; i++ {
+			rets = append(rets, fmt.Sprint(101+i))
+		}
+		src := "host(func(" + strings.Join(params, ", ") + ") {\n  rec(" + strings.Join(names, ", ") + ")\n  return " + strings.Join(rets, ", ") + "\n})"
+		var seen [][]interface{}
+		e := env.NewEnv()
+		e.DefineValue("host", host)
+		e.Define("rec", func(xs ...interface{}) { seen = append(seen, append([]interface{}{}, xs...)) })
+		var res interface{}
+		var rerr error
+		func() {
+			defer func() {
+				if r := recover(); r != nil {
+					rerr = fmt.Errorf("PANIC %v", r)
+				}
+			}()
+			res, rerr = vm.Execute(e, nil, src)
+		}()
+		what := fmt.Sprintf("callback of Go type %s called with %d fixed + %d variadic values", cbT, c.C.Gfix, c.C.Gextra)
+		if rerr != nil && strings.HasPrefix(rerr.Error(), "PANIC") {
+			add(Mismatch{Src: src, What: what + ": a Go panic escaped", Got: rerr.Error()})
+			return nil
+		}
+		if c.Sees.O == "open" || c.Returns.O == "open" {
+			sum.Open++
+			return nil
+		}
+		if c.Sees.O == "error" || c.Returns.O == "error" {
+			if rerr == nil {
+				add(Mismatch{Src: src, What: what + ": the mismatch must surface as an error of the enclosing call", Exp: "an error", Got: show(res)})
+			}
+			return nil
+		}
+		if rerr != nil {
+			add(Mismatch{Src: src, What: what + ": the call failed", Exp: c.Sees, Got: rerr.Error()})
+			return nil
+		}
+		sum.Calls++
+		if called != 1 || len(seen) != 1 {
+			add(Mismatch{Src: src, What: what + ": the script function must run exactly once per Go invocation", Exp: 1, Got: len(seen)})
+			return nil
+		}
+		got := seen[0]
+		bad := len(got) != len(c.Sees.Ps)
+		var gotDesc []string
+		for i, g := range got {
+			k, vs, ok := cbElems(g)
+			gotDesc = append(gotDesc, fmt.Sprintf("%s%v", k, g))
+			if bad || i >= len(c.Sees.Ps) {
+				continue
+			}
+			want := c.Sees.Ps[i]
+			// Go's variadic parameter may arrive as the typed slice or as a list of the same elements
+			kindOK := k == want.K || (want.K == "slice" && k == "list")
+			if !ok || !kindOK || fmt.Sprint(vs) != fmt.Sprint(append([]int64{}, want.Vs...)) {
+				bad = true
+			}
+		}
+		if bad {
+			add(Mismatch{Src: src, What: what + ": the script function must be invoked with the arguments Go passes", Exp: c.Sees.Ps, Got: gotDesc})
+		}
+		// the result(s) converted to the declared return types
+		var want interface{}
+		switch len(c.Returns.Rs) {
+		case 0:
+			want = nil
+		case 1:
+			want = c.Returns.Rs[0]
+		default:
+			l := []interface{}{}
+			for _, r := range c.Returns.Rs {
+				l = append(l, r)
+			}
+			want = l
+		}
+		if !reflect.DeepEqual(res, want) {
+			add(Mismatch{Src: src, What: what + ": Go must get back the callback's results converted to the declared types", Exp: show(want), Got: show(res)})
+		}
+		return nil
+	})
+	if err != nil {
+		fmt.Fprintln(os.Stderr, err)
+		os.Exit(2)
+	}
+	b, _ := json.Marshal(sum)
+	os.WriteFile(out, b, 0o644)
+}
+
 // ---------------------------------------------------------------- methods table (MC_AnkoCall, Shard = "methods")
 
 type RStruct struct{ N int64 }
@@ -725,6 +912,10 @@ func main() {
 	}
 	if len(os.Args) >= 4 && os.Args[1] == "results" {
 		results(os.Args[2], os.Args[3])
+		return
+	}
+	if len(os.Args) >= 4 && os.Args[1] == "callbacks" {
+		callbacks(os.Args[2], os.Args[3])
 		return
 	}
 	if len(os.Args) >= 4 && os.Args[1] == "methods" {
